@@ -393,6 +393,12 @@ func c08Judge(r *evid.Run, idx int, class, rendering, s string, genAST xast.Expr
 				continue
 			}
 			ast2, perr2 := refparse.Parse(s2)
+			ids := []string{rw.id}
+			if perr2 != nil {
+				// two open findings at once: the rewritten string may still need and/or/div/mod read as operators
+				ast2, perr2 = refparse.ParseQ(s2, refparse.Quirks{KeywordOperators: true})
+				ids = append(ids, "grammar-reserved-names")
+			}
 			if perr2 != nil {
 				continue
 			}
@@ -400,9 +406,39 @@ func c08Judge(r *evid.Run, idx int, class, rendering, s string, genAST xast.Expr
 			// a literal in which backslash hides a quote has no counterpart in XPath 1.0 whose value the
 			// library's could be compared with: the counterfactual parse alone attributes the acceptance
 			if rw.id == "grammar-backslash-literal" || c08Agree(lib, mv, me, false) == "" || evalFails(lib) || hasFnStepWithArgs(ast2) || hasNamespaceAxisNameTest(ast2) {
-				if known([]string{rw.id}, what) {
+				if known(ids, what) {
 					sig("known")
 					return
+				}
+			}
+		}
+		// several open findings in one string: all rewrites applied one after the other
+		{
+			s2, ids := s, []string{}
+			seenID := map[string]bool{}
+			for _, rw := range c08Rewrites {
+				if s3 := rw.f(s2); s3 != s2 {
+					s2 = s3
+					if !seenID[rw.id] {
+						seenID[rw.id] = true
+						ids = append(ids, rw.id)
+					}
+				}
+			}
+			if len(ids) >= 2 {
+				ast2, perr2 := refparse.Parse(s2)
+				if perr2 != nil {
+					ast2, perr2 = refparse.ParseQ(s2, refparse.Quirks{KeywordOperators: true})
+					ids = append(ids, "grammar-reserved-names")
+				}
+				if perr2 == nil {
+					mv, me := c08Model(ast2)
+					if seenID["grammar-backslash-literal"] || c08Agree(lib, mv, me, false) == "" || evalFails(lib) || hasFnStepWithArgs(ast2) || hasNamespaceAxisNameTest(ast2) {
+						if known(ids, what) {
+							sig("known")
+							return
+						}
+					}
 				}
 			}
 		}
